@@ -34,6 +34,28 @@ END_ENTITY;
 """
 
 
+MUTUAL = """SCHEMA alpha;
+USE FROM beta (mid);
+TYPE tag = STRING;
+END_TYPE;
+ENTITY top;
+  t : tag;
+END_ENTITY;
+ENTITY low SUBTYPE OF (mid);
+  n : INTEGER;
+END_ENTITY;
+END_SCHEMA;
+
+SCHEMA beta;
+USE FROM alpha (top);
+REFERENCE FROM alpha (tag);
+ENTITY mid SUBTYPE OF (top);
+  second : OPTIONAL tag;
+END_ENTITY;
+END_SCHEMA;
+"""
+
+
 def tree_digest(d, forbidden):
     h = hashlib.sha256()
     foreign = []
@@ -88,6 +110,13 @@ def run(ctx):
     for i, c in enumerate(cases):
         inputs.append(("fam%d" % i, express.render(c["schema"])))
     inputs.append(("bounds", express.render(cases[0]["schema"], BOUNDS_HEAD, bounds_body)))
+    # files with several schemas: one that uses another, and two that use each other with a supertype chain that
+    # crosses the schema border twice (alpha.top <- beta.mid <- alpha.low: the generators print alpha in two passes)
+    allc, _ = fc.gen(ctx, with_mutants=False)
+    auxc = [c for c in allc if c["schema"]["aux"]]
+    if auxc:
+        inputs.append(("twoschemas", express.render(auxc[len(auxc) // 2]["schema"])))
+    inputs.append(("mutual", MUTUAL))
     if not ctx.quick:
         # the application-protocol schemas shipped in data/ (all four tools, every configuration of the plan)
         import glob
@@ -97,8 +126,8 @@ def run(ctx):
     tools = [("exp2cxx", os.path.join(bdir, "bin", "exp2cxx")), ("exp2python", os.path.join(bdir, "bin", "exp2python")),
              ("exppp", os.path.join(bdir, "bin", "exppp")), ("schema_scanner", scan)]
     jobs = []
-    BASE = {"aslr": "on", "cwd": "short", "path": "abs", "env": "small", "locale": "C", "heap": "default"}
-    FAR = {"aslr": "off", "cwd": "long/deeper/dir", "path": "dotted", "env": "big", "locale": "de_DE.UTF-8", "heap": "perturb"}
+    BASE = {"aslr": "on", "cwd": "short", "path": "abs", "env": "small", "locale": "C", "heap": "default", "prior": "none"}
+    FAR = {"aslr": "off", "cwd": "long/deeper/dir", "path": "dotted", "env": "big", "locale": "de_DE.UTF-8", "heap": "perturb", "prior": "same"}
     for name, text in inputs:
         for tname, tbin in tools:
             for k, c in enumerate(cfgs):
@@ -135,6 +164,8 @@ def run(ctx):
         if c["aslr"] == "off":
             cmd = ["setarch", os.uname().machine, "-R"] + cmd
         try:
+            if c.get("prior") == "same":      # the output directory has already seen a complete run on this input
+                subprocess.run(cmd, cwd=cwd, env=env, stdout=subprocess.PIPE, stderr=subprocess.PIPE, timeout=600)
             p = subprocess.run(cmd, cwd=cwd, env=env, stdout=subprocess.PIPE, stderr=subprocess.PIPE, timeout=600)
             rc = p.returncode
         except subprocess.TimeoutExpired:
